@@ -80,7 +80,7 @@ if result["confirmed"] or "--force" in sys.argv:
             for c in checks:
                 t = time.time()
                 std = f"VERIF_STD_DIR={S}/repo/std " if os.path.exists(f"{S}/repo/std") else ""
-                rc, out = sh(f"{std}VERIF_VH={S}/vh ./check {c} --tier quick", "/verif", timeout=3600, use_env=False)
+                rc, out = sh(f"{std}VERIF_SCRATCH=seedrun-{pid}-{n} VERIF_VH={S}/vh ./check {c} --tier quick", "/verif", timeout=3600, use_env=False)
                 result["checks"][c] = {"exit": rc, "violations": re.findall(r"^VIOLATION .*", out, re.M)[:5],
                                        "wall_s": round(time.time() - t), "tail": out[-600:] if rc not in (0, 1) else ""}
         finally:
